@@ -15,8 +15,18 @@
 (* of each link (peer reads or not, link cut), calls of the sending API     *)
 (* with the fate of each of their messages, and a virtual clock.            *)
 (* One action per critical section / notification; every action is          *)
-(* something the harness can see (a record of the trace) except Skip and    *)
-(* Adopt, which the trace specification infers.                             *)
+(* something the harness can see (a record of the trace) except Skip,       *)
+(* Adopt and WriteFail on a connection without a writer, which the trace    *)
+(* specification infers.  The M* operators further down are the MODEL: the  *)
+(* same actions under the guards that say when the code / the explored      *)
+(* environment takes them (asyncio's first-in-first-out task order, which   *)
+(* call asks for which connection, the windows of MC_*.cfg); the trace      *)
+(* specification uses the unguarded actions and lets the properties judge.  *)
+(*                                                                         *)
+(* What is deliberately NOT constrained: which usable connection a call     *)
+(* re-uses, whether calls that wait for a connection to the same user each  *)
+(* make one (the code) or share one, the order of frames of calls that      *)
+(* overlap in time, close reasons other than TIMEOUT.                       *)
 (*                                                                         *)
 (* Properties are written from docs/source/USAGE.rst ("Protocol Messages"), *)
 (* the docstrings of send_peer_messages / send_server_messages /            *)
@@ -87,7 +97,7 @@ VARIABLES
   call,      \* call[k]: [st, kind, user, n, raise, conn, inv, ret, late (queued when the connection was closing already),
              \*          go (stamp of the moment its send tasks were created),
              \*          fit (the connection it goes on with was usable when the call was made, or established later)]
-  ms,        \* ms[k][i]: todo | pend | ok | err | skip | canc
+  ms,        \* ms[k][i]: todo | pend (written, drain() waits) | thru | ok | err | skip | canc
   wdl,       \* wdl[k][i]: write deadline of a pending message
   res,       \* res[k][i]: what the call reported for the message: none | ok | err
   out,       \* out[k]: none | ok | raise | connfail
@@ -154,6 +164,7 @@ MsAfterClose(m, c) ==
   [k \in Calls |-> [i \in Msgs |->
      IF OnConn(k, c) /\ i <= call[k].n
      THEN IF call[k].kind = "queue" /\ m[k][i] \in {"todo", "pend"} THEN "canc"
+          ELSE IF call[k].kind = "queue" /\ m[k][i] = "thru" THEN "ok"     \* written; its task is cancelled
           ELSE IF m[k][i] = "pend" THEN "err" ELSE m[k][i]
      ELSE m[k][i]]]
 
@@ -319,7 +330,7 @@ Skip(k, i) ==
   /\ UNCHANGED <<now, cvars, link, blocked, wire, tvars0, pin, pdel, owner, call, wdl, res, out, qrep, ev, need, nreq>>
 
 \* what the documentation promises for a message / what the code reports
-Expected(k, i) == IF ms[k][i] = "ok" THEN "ok" ELSE IF ms[k][i] \in {"err", "skip"} THEN "err" ELSE "none"
+Expected(k, i) == IF ms[k][i] \in {"ok", "thru"} THEN "ok" ELSE IF ms[k][i] \in {"err", "skip"} THEN "err" ELSE "none"
 Reported(k, i) == IF ms[k][i] = "skip" /\ SkipReportsOk THEN "ok" ELSE Expected(k, i)
 
 \* the call returns o ("ok": returned; "raise": ConnectionWriteError) and, without raise_on_error, the list rv
@@ -388,24 +399,26 @@ Block(c) ==
   /\ UNCHANGED <<now, cs, dest, why, cls, link, wire, rstart, nsent, lastAct, pin, pdel, born, estd, rq, owner,
                  call, ms, wdl, res, out, qrep, ev, need, nreq>>
 
-\* the other end reads again
+\* the other end reads again: what waited on c is through ("thru": its drain() is released, its task has not
+\* resumed yet)
 Unblock(c) ==
   /\ blocked[c]
   /\ blocked' = [blocked EXCEPT ![c] = FALSE]
+  /\ ms' = [k \in Calls |-> [i \in Msgs |-> IF OnConn(k, c) /\ ms[k][i] = "pend" THEN "thru" ELSE ms[k][i]]]
   /\ UNCHANGED <<now, cs, dest, why, cls, link, wire, rstart, nsent, lastAct, pin, pdel, born, estd, rq, owner,
-                 call, ms, wdl, res, out, qrep, ev, need, nreq>>
+                 call, wdl, res, out, qrep, ev, need, nreq>>
 
-\* ... and a drain() that waited returns: the oldest message that waits on c is through
-PendOn(c) == {x \in DOMAIN wire[c] : ms[wire[c][x][1]][wire[c][x][2]] = "pend"}
+\* ... and a drain() that waited returns: the send of the oldest such message completes
+ThruOn(c) == {x \in DOMAIN wire[c] : ms[wire[c][x][1]][wire[c][x][2]] = "thru"}
 Flush(c) ==
-  /\ PendOn(c) # {}
-  /\ LET x == CHOOSE y \in PendOn(c) : \A z \in PendOn(c) : y <= z
+  /\ ThruOn(c) # {}
+  /\ LET x == CHOOSE y \in ThruOn(c) : \A z \in ThruOn(c) : y <= z
          k == wire[c][x][1]  i == wire[c][x][2]
      IN ms' = [ms EXCEPT ![k][i] = "ok"]
   /\ BumpN(c, 1)
   /\ UNCHANGED <<now, cs, dest, why, cls, link, blocked, wire, pin, pdel, born, estd, rq, owner,
                  call, wdl, res, out, qrep, ev, need, nreq>>
-MFlush(c) == ~blocked[c] /\ Flush(c)
+MFlush(c) == c \in AllConns /\ Flush(c)
 
 \* the link breaks: the other end closed ("eof"), reset, or the transport starts refusing writes ("failing")
 Break(c, mode) ==
@@ -615,5 +628,5 @@ NoWriteOverstay == \A k \in Calls : \A i \in Msgs : ms[k][i] = "pend" => now <= 
 TypeOK ==
   /\ now \in Nat
   /\ \A c \in AllConns : cs[c] \in {"free", "opening", "connected", "init", "est", "closing", "closed"}
-  /\ \A k \in Calls : \A i \in Msgs : ms[k][i] \in {"todo", "pend", "ok", "err", "skip", "canc"}
+  /\ \A k \in Calls : \A i \in Msgs : ms[k][i] \in {"todo", "pend", "thru", "ok", "err", "skip", "canc"}
 =============================================================================
